@@ -45,6 +45,26 @@ def access_cases(ctx, n_files, max_adds, max_slices):
     return cases
 
 
+def history_cases(ctx, n_files, n_hist):
+    """Small ragged files (5-8 events, 1-3 particles and 0-3 waveforms / rays each, some untriggered)
+    on which hundreds of iterator op histories are run: (slice_range, slice, next/iter/for/islice
+    history) combinations on ONE iterator object each."""
+    rng = ctx.rng
+    cases = []
+    for i in range(n_files):
+        o = ioc.gen_opts_uneven(rng) if i % 2 else _mk_opts(rng, i)
+        o["write_particles"] = True
+        if not ioc.records_particles(o):
+            o["require_trigger"] = True
+            if o["write_antenna_triggers"]:
+                o["write_triggers"] = True
+        fc = ioc.gen_filecase(rng, rng.randrange(5, 9), opts=o, p_bad=0.05, nsessions=rng.choice([1, 2]), p_nodet=0.0)
+        if i % 2 == 0:
+            fc["analysis"] = {"seed": rng.randrange(1 << 30), "p": 0.5}
+        cases.append({"files": [fc], "queries": [], "_hist": n_hist})
+    return cases
+
+
 def gen_cases_multi(ctx, n_cases, max_adds):
     rng = ctx.rng
     cases = []
@@ -99,6 +119,11 @@ def make_qgen(ctx):
                     qs += [["iter", i, k] for k in (ks if ctx.thorough else rng.sample(ks, 2))]
                     if ctx.thorough or i == 0 or rng.random() < 0.3:
                         qs += [["int", i, None, j] for j in range(n)]
+            return qs
+        if case.get("_hist"):
+            for i, r in enumerate(recs):
+                if r["ctor"] is None:
+                    qs += ioc.gen_histories(rng, i, len(r["index"]), case["_hist"])
             return qs
         if case.get("_gen"):
             if any(r["ctor"] is not None for r in recs):
@@ -168,11 +193,12 @@ def run(ctx):
     cases = access_cases(ctx, ctx.n(12, 18) if big else 9, 9 if ctx.thorough else 7, None if ctx.thorough else 45)
     cases += gen_cases_multi(ctx, ctx.n(10, 20) if big else 7, 8 if ctx.thorough else 6)
     cases += split_cases(ctx, ctx.n(4, 5) if big else 3, 6 if ctx.thorough else 5)
+    cases += history_cases(ctx, ctx.n(2, 6), ctx.n(220, 400))
     for c in cases:
         c.pop("_dummy", None)
     problems += ioc.run_batch(ctx, cases, PROP, stats, query_gen=qgen, label="g")
     if ctx.thorough or escalate or problems:
-        extra = access_cases(ctx, ctx.n(4, 24), 6, 40) + gen_cases_multi(ctx, ctx.n(4, 15), 5) + split_cases(ctx, ctx.n(2, 4), 4)
+        extra = access_cases(ctx, ctx.n(4, 24), 6, 40) + gen_cases_multi(ctx, ctx.n(4, 15), 5) + split_cases(ctx, ctx.n(2, 4), 4) + history_cases(ctx, ctx.n(2, 4), ctx.n(150, 300))
         problems += ioc.run_batch(ctx, extra, PROP, stats, query_gen=qgen, with_model=False, label="s")
         ctx.extra["search"] = {"ran": True, "evaluations": len(extra), "oracle": "sequential pass of the same file (every access path must reproduce it), single-session file (append splits), particles of the sequential pass (FileGenerator)"}
     else:
